@@ -249,11 +249,23 @@ func dcall(h hfile, o dop) dres {
 			r.Names = append(r.Names, n)
 		}
 
+		// what a caller may do with a slice it was given: overwrite it and append to
+		// it (os.File hands out a fresh slice per call; a piece of a listing the handle
+		// keeps for the next pieces would be written over through its spare capacity)
+		for i := range es[:cap(es)] {
+			es[:cap(es)][i] = nil
+		}
+
 		return r
 	case "Readdirnames":
 		ns, err := h.Readdirnames(o.N)
+		r := dres{Kind: errKind(err), Names: append([]string(nil), ns...), Msg: errMsg(err)}
 
-		return dres{Kind: errKind(err), Names: ns, Msg: errMsg(err)}
+		for i := range ns[:cap(ns)] {
+			ns[:cap(ns)][i] = "\x00scribbled"
+		}
+
+		return r
 	case "Close":
 		err := h.Close()
 
